@@ -54,7 +54,7 @@ func TestInlinePreservesBehaviour(t *testing.T) {
 	if got != want {
 		t.Fatalf("behaviour changed by normalisation\nwant:\n%s\ngot:\n%s", want, got)
 	}
-	for _, must := range []string{"one", "two", "box.bump", "box.nested", "swap", "selects", "plain", "plainD", "worker", "cleanup", "closure", "unusedParam", "box.adder", "twice", "noisy"} {
+	for _, must := range []string{"one", "two", "box.bump", "box.nested", "swap", "selects", "plain", "plainD", "worker", "cleanup", "closure", "unusedParam", "box.adder", "twice", "noisy", "box.lockedVoid", "box.locked"} {
 		found := false
 		for _, d := range res.Dropped {
 			if strings.HasSuffix(d, ":"+must) {
